@@ -1,5 +1,5 @@
 """C06 - constructors deliver exactly the given contents and move each element once."""
-from .. import atomics, balance, cfg, core, symx
+from .. import atomics, balance, cfg, core, inline, symx
 from ..effects import vget
 from ..facts import MAYBE_UNINIT, operand_const, operand_place
 from . import c03, c04
@@ -52,6 +52,28 @@ def find_calls(e, name, out):
             find_calls(x, name, out)
 
 
+def norm_block_len(e, data_name):
+    """`len()` of the slice part of a block that an allocation helper sized with L *is* L (the helper fabricates the fat pointer with
+    that length: C05 R-FATLEN): rewrite `len(alloc(L).data.slice)` to L, anywhere in the expression."""
+    if not isinstance(e, tuple):
+        return e
+    e = tuple(norm_block_len(x, data_name) if isinstance(x, tuple) else x for x in e)
+    if e and e[0] == "call" and e[2] == "len" and len(e[3]) == 1:
+        x = e[3][0]
+        for _ in range(8):
+            if x[0] == "cast":
+                x = x[2]
+            elif x[0] == "addr":
+                x = x[1]
+            elif x[0] == "call" and x[2] in ("as_ptr", "as_mut_ptr", "as_ref", "as_mut", "new_unchecked", "cast", "as_non_null_ptr") and x[3]:
+                x = x[3][0]
+            else:
+                break
+        if x[0] == "proj" and x[1][0] == "call" and len(x[2]) >= 2 and tuple(n for n in x[2] if n != "*")[-2:] == (data_name, "slice") and x[1][3]:
+            return x[1][3][0]
+    return e
+
+
 def alloc_regions(F, E, b, B):
     """(block pointer expression root call term, bb, payload type idx, MAKE bb) for bodies that turn a fresh block into a handle."""
     out = []
@@ -97,26 +119,41 @@ def _needs_init(F, i):
     return True
 
 
+def _has_local_caller(F, key):
+    c = F.__dict__.get("_called_keys")
+    if c is None:
+        c = set()
+        for b in F.body_list:
+            for bl in b["blocks"]:
+                t = bl["term"]
+                if t["k"] == "call":
+                    k = atomics.callee_of(t)
+                    if k in F.bodies and k != b["key"]:
+                        c.add(k)
+        F.__dict__["_called_keys"] = c
+    return key in c
+
+
 def rule_init(ctx, rep, only=None):
     """R-INIT: between the allocation and the first owning handle every payload field that is not MaybeUninit is written,
     by ptr::write / copy (never by a dropping assignment), and the writes dominate the handle's construction."""
     for tag, F, E in ctx.each():
         A = balance.analysis(tag, F, E)
-        for b in F.body_list:
-            if b["kind"] not in ("Fn", "AssocFn"):
+        for b0 in F.body_list:
+            if b0["kind"] not in ("Fn", "AssocFn"):
                 continue
-            if only and b.get("name") not in only:
+            if only and b0.get("name") not in only:
                 continue
+            # private helpers are judged inside their callers (virtually inlined): `Allocation::new(len)`, `write_header(..)`, `finish()`
+            if not balance.is_api(F, b0) and _has_local_caller(F, b0["key"]):
+                continue
+            b = inline.inlined(F, b0["key"])
             B = cfg.Body(b)
             regs = alloc_regions(F, E, b, B)
             if not regs:
                 continue
-            # the MAKE that consumes the block
-            make_bbs = set()
-            for p in A.paths[b["key"]]:
-                for e in p.events:
-                    if e["kind"] == "MAKE" and vget(e["vec"], "make_agg") and e["detail"].get("handle") in ("Arc",):
-                        make_bbs.add(e["bb"])
+            # the aggregate that turns the block into an owning handle
+            make_bbs = inline.handle_make_blocks(F, b, ("Arc",))
             if not make_bbs:
                 continue
             dom = B.dominators()
@@ -234,6 +271,7 @@ def rule_lenflow(ctx, rep):
     for tag, F, E in ctx.each():
         for name in ("from_header_and_slice", "from_header_and_vec", "from_header_and_iter"):
             for b in F.method("Arc", name):
+                b = inline.inlined(F, b["key"])
                 B = cfg.Body(b)
                 regs = alloc_regions(F, E, b, B)
                 ik = b["key"]
@@ -253,7 +291,7 @@ def rule_lenflow(ctx, rep):
                         ok, why = False, "expected exactly one bulk copy, found %d" % len(copies)
                     else:
                         c = copies[0]
-                        n = nobb(symx.expr(F, B, copy_args(c)[2]))
+                        n = norm_block_len(nobb(symx.expr(F, B, copy_args(c)[2])), F.data_field[1])
                         src = nobb(symx.expr(F, B, copy_args(c)[0]))
                         if n != L:
                             ok, why = False, "the bulk copy moves %s elements but the block was sized for %s" % (symx.show(n), symx.show(L))
@@ -311,6 +349,7 @@ def rule_moveonce(ctx, rep):
     for tag, F, E in ctx.each():
         # Vec: set_len(0) after the copy, before the Vec is dropped
         for b in F.method("Arc", "from_header_and_vec"):
+            b = inline.inlined(F, b["key"])
             B = cfg.Body(b)
             dom = B.dominators()
             copies = [(bi, t) for bi, t in B.calls() if copy_args(t) is not None]
@@ -448,17 +487,14 @@ def rule_iterloop(ctx, rep):
     for tag, F, E in ctx.each():
         A = balance.analysis(tag, F, E)
         for b in F.method("Arc", "from_header_and_iter"):
+            b = inline.inlined(F, b["key"])
             B = cfg.Body(b)
             regs = alloc_regions(F, E, b, B)
             if len(regs) != 1:
                 rep.bad("R-ITERLOOP", b["key"], "expected exactly one allocation in the constructor", F.loc(b), tag)
                 continue
             L = symx.expr(F, B, regs[0][0]["args"][0])
-            make_bbs = set()
-            for p in A.paths[b["key"]]:
-                for e in p.events:
-                    if e["kind"] == "MAKE" and vget(e["vec"], "make_agg"):
-                        make_bbs.add(e["bb"])
+            make_bbs = inline.handle_make_blocks(F, b, ("Arc",))
             viol, unsup, info = fillloop.analyse(F, E, b, L, make_bbs)
             for suffix, msg, span in viol:
                 rep.bad("R-ITERLOOP", "%s/%s" % (b["key"], suffix), msg, F.loc(b, span), tag)
